@@ -44,7 +44,7 @@ CLASS_TEMPLATES = [
     "PrimitiveType", "ArithmeticType", "IntegerType", "UnsignedIntegerType", "SignedIntegerType", "FloatType",
     "BooleanType", "VoidType", "ArrayType", "FixedLengthArrayType", "VariableLengthArrayType",
 ]  # fmt: skip
-DISTRACTORS = ["base", "Common", "structuretype", "StructureTyp", "Type", "Namespace"]
+DISTRACTORS = ["base", "Common", "structuretype", "StructureTyp", "Type", "Namespace", "StructureType.old", "CompositeType.fields", "Any.bak", "UnionType.v2", "SerializableType.orig"]
 NAME_POOL = {
     "filters": ["indent", "join", "upper", "lineprefix", "id", "yamlfy", "type_to_template", "includes", "typename", "macrofy", "full_reference_name", "fresh_filter_a", "fresh_filter_b", "bits2bytes_ceil", "remove_blank_lines", "text_table", "alignment_prefix", "short_reference_name", "to_template_unique_name", "constant_value"],
     "tests": ["defined", "none", "string", "StructureType", "structure", "IntegerType", "integer", "None", "saturated", "deprecated", "service_request", "zero_cost_primitive", "padding", "PaddingField", "constant", "fresh_test_a", "primitive", "variablelengtharray", "Any"],
